@@ -143,14 +143,17 @@ def build_ds(spec):
     ds.ImageOrientationPatient = list(spec['iop'])
     ds.ImagePositionPatient = list(spec['ipp'])
     ds.BitsAllocated = 16
-    ds.BitsStored = 12
-    ds.HighBit = 11
-    ds.PixelRepresentation = 0
+    ds.BitsStored = spec.get('bits', 12)
+    ds.HighBit = spec.get('bits', 12) - 1
+    ds.PixelRepresentation = spec.get('pixrep', 0)
     ds.SamplesPerPixel = 1
     ds.PhotometricInterpretation = 'MONOCHROME2'
     if spec.get('pix', True):
         npx = spec['rows'] * spec['cols']
-        ds.PixelData = ((np.arange(npx, dtype=np.uint32) * 7 + 31 * spec['id'] + 5) % 4000).astype(np.uint16).tobytes()
+        px = (np.arange(npx, dtype=np.uint32) * 7 + 31 * spec['id'] + 5) % 4000
+        if spec.get('pxhi'):
+            px = px + 36000            # stored values above 32767: wrap around when the stack array is signed
+        ds.PixelData = px.astype(np.uint16).tobytes()
     for k, v in spec.get('tags', {}).items():
         setattr(ds, k, v)
     return ds
@@ -215,7 +218,17 @@ def abstract_file(dcmstack, spec, ds, case):
     a['meta'] = [[k, fr(_num(meta.get(k)))] for k in dcmstack.DicomStack.sort_guesses if meta.get(k) is not None]
     a['tr'] = fr(_num(meta.get('RepetitionTime')))
     a['phase'] = meta.get('InPlanePhaseEncodingDirection')
+    a['dtype'] = dtype_code(dw.get_data().dtype) if a['pix'] else 0
+    a['bits'] = int(meta.get('BitsStored', 16))
+    a['has_acq'] = meta.get('AcquisitionTime') is not None
     return a
+
+
+DTYPES = {'int16': 0, 'uint16': 1, 'uint8': 2, 'int8': 3, 'int32': 4, 'uint32': 5, 'float32': 6, 'float64': 7}
+
+
+def dtype_code(dt):
+    return DTYPES[str(dt)]
 
 
 def wants_flip(dcmstack, ds, vo):
@@ -255,7 +268,7 @@ class Runner(object):
 
     def apply(self, op):
         st = self.stack
-        out = {'r': 'ok', 'shape': None}
+        out = {'r': 'ok', 'shape': None, 'dtype': None}
         try:
             if op[0] == 'add':
                 n0 = len(st._files_info)
@@ -266,13 +279,17 @@ class Runner(object):
             elif op[0] == 'shape':
                 out['shape'] = [int(x) for x in st.get_shape()]
             elif op[0] == 'data':
-                out['shape'] = [int(x) for x in st.get_data().shape]
+                arr = st.get_data()
+                out['shape'] = [int(x) for x in arr.shape]
+                out['dtype'] = dtype_code(arr.dtype)
             elif op[0] == 'affine':
                 st.get_affine()
             elif op[0] == 'nifti':
                 self.last = st.to_nifti(op[1], bool(op[2]))
+                out['dtype'] = dtype_code(self.last.get_data_dtype())
             elif op[0] == 'wrapper':
                 self.last = st.to_nifti_wrapper(op[1]).nii_img
+                out['dtype'] = dtype_code(self.last.get_data_dtype())
             else:
                 raise ValueError('unknown op %r' % (op,))
         except Exception as e:
@@ -282,7 +299,9 @@ class Runner(object):
             elif op[0] == 'add' and nm in ADD_ONLY_ERR:
                 out['r'] = ADD_ONLY_ERR[nm]
             else:
-                raise
+                # anything else is outside the model: recorded, so that the oracle can still compare histories
+                out['r'] = 'X:' + nm
+                out['msg'] = str(e)[:200]
         out.update(self.state())
         return out
 
@@ -344,12 +363,12 @@ def cQ(x):
 
 
 def coq_file(a):
-    return ('(mkfile %s %s %s %s %s %s %s %s %s %s %s %s)' % (
+    return ('(mkfile %s %s %s %s %s %s %s %s %s %s %s %s %s %s %s)' % (
         cnat(a['id']), cbool(a['pix']), cnat(a['rows']), cnat(a['cols']),
         clist(cQ(x) for x in a['ps']), clist(cQ(x) for x in a['iop']), cqc(a['pos']),
         copt(a['time'], cqc), copt(a['vec'], cqc),
         clist(cpair(cstr(k), cqc(v)) for k, v in a['meta']),
-        copt(a['tr'], cqc), copt(a['phase'], cstr)))
+        copt(a['tr'], cqc), copt(a['phase'], cstr), cnat(a['dtype']), cnat(a['bits']), cbool(a['has_acq'])))
 
 
 def coq_vo(obs, vo):
@@ -374,15 +393,15 @@ def coq_op(case, obs, op):
 
 
 def coq_obs(o):
-    """(result class, optional shape, file ids after the call, dirty flag after the call)"""
-    r = 'None' if o['r'] == 'ok' else '(Some %s)' % o['r']
+    """(result class, optional shape, optional dtype code, file ids after the call, dirty flag after the call)"""
+    r = 'None' if o['r'] == 'ok' else '(Some %s)' % (o['r'] if not o['r'].startswith('X:') else 'ECrash')
     sh = copt(o['shape'], lambda s: clist(cnat(x) for x in s))
-    return '(%s, %s, %s, %s)' % (r, sh, clist(cnat(i) for i in o['ids']), cbool(o['dirty']))
+    return '(%s, %s, %s, %s, %s)' % (r, sh, copt(o.get('dtype'), cnat), clist(cnat(i) for i in o['ids']), cbool(o['dirty']))
 
 
 def coq_case(case, obs):
     if not isinstance(obs, dict) or 'crash' in obs or 'ops' not in obs:
-        return '(mkcase false false [] [(None, None, [0%nat], false)])'      # never matches: flags the crash
+        return '(mkcase false false [] [(None, None, None, [0%nat], false)])'      # never matches: flags the crash
     keep = [(op, o) for op, o in zip(case['ops'], obs['ops']) if not (op[0] == 'add' and o['r'] == 'EValue')]
     return '(mkcase %s %s %s %s)' % (
         cbool(case.get('time_order') is not None), cbool(case.get('vector_order') is not None),
@@ -787,6 +806,29 @@ def apply_defect(rng, cfg, files, defect):
                     if cfg['time_order'] is not None and cfg['time_order']['abs'] is None and cfg['tagrules'].get(cfg['time_order']['key']) in ('t', 'trev'):
                         f['tags'][cfg['time_order']['key']] = tag_value(cfg['time_order']['key'], 40 + t)
     return renumber(files), note
+
+
+def vary_attrs(rng, cfg, files):
+    """Per-file attributes that add_dcm does not compare but the conversion reads from ONE file of the sorted
+    list (dtype, BitsStored, AcquisitionTime presence): make them non-uniform."""
+    modes = [m for m in ('bits', 'pixrep', 'pxhi', 'acq') if rng.random() < 0.45]
+    S = cfg['S']
+    asc = cfg['direction'] == 1
+    for f in files:
+        if 'bits' in modes:
+            f['bits'] = rng.choice([12, 16])
+        if 'pixrep' in modes:
+            f['pixrep'] = rng.choice([0, 1])
+        if 'pxhi' in modes and rng.random() < 0.5:
+            f['pxhi'] = True
+    tkey = cfg['time_order']['key'] if cfg['time_order'] else None
+    if 'acq' in modes and S >= 3 and 'AcquisitionTime' in cfg['tagrules'] and tkey != 'AcquisitionTime':
+        # missing on the lowest and the highest position of every volume: whichever of them ends up first
+        # after sorting / reversal, the conversion must not look at AcquisitionTime at all
+        for f in files:
+            if f['cell'][0] in (0, S - 1) and 'AcquisitionTime' in f['tags']:
+                del f['tags']['AcquisitionTime']
+    return modes
 
 
 def add_order(rng, files):
